@@ -72,7 +72,7 @@ static std::string payload(size_t n, int cls, unsigned salt) {
 static std::unique_ptr<BaseCborOutputWriter> g_static_writer;
 
 struct Step { int kind; size_t size; int cls; };   // kind 0 write, 1 rotate, 2 (only as first step) short-write cap of `size` bytes for the whole sequence
-static std::string steps_str(const std::vector<Step>& v) { std::string s; for (auto& x : v) s += x.kind == 2 ? "S" + std::to_string(x.size) + "," : x.kind ? "R," : "W" + std::to_string(x.size) + "c" + std::to_string(x.cls) + ","; return s; }
+static std::string steps_str(const std::vector<Step>& v) { std::string s; for (auto& x : v) s += x.kind == 2 ? "S" + std::to_string(x.size) + "," : x.kind == 3 ? "Q," : x.kind ? "R," : "W" + std::to_string(x.size) + "c" + std::to_string(x.cls) + ","; return s; }
 
 struct CV { std::string key, what; };
 
@@ -83,6 +83,7 @@ static void run_seq(int comp, int sink, const std::vector<Step>& steps, Result& 
     // output names: plain, with dots, already ending in the format's own suffix (the suffix is appended to whatever name was given)
     auto newname = [&]() { static const char* TAIL[] = {"", ".cdns", ".gz", ".tar.xz", ".part"}; std::string n = base + std::to_string(names.size()) + TAIL[(names.size() + steps.size()) % 5]; names.push_back(n); return n; };
     auto opensink = [&](const std::string& n) { return open(n.c_str(), O_WRONLY | O_CREAT | O_TRUNC, 0600); };
+    std::string same_name_problem;
     {
         std::unique_ptr<BaseCborOutputWriter> w; std::string n0 = newname();
         if (sink == 0) { if (comp == 1) w.reset(new GzipCborOutputWriter(n0)); else w.reset(new XzCborOutputWriter(n0)); }
@@ -92,13 +93,19 @@ static void run_seq(int comp, int sink, const std::vector<Step>& steps, Result& 
         for (auto& st : steps) {
             if (st.kind == 2) { g_wcap = st.size; continue; }
             if (st.kind == 0) { std::string p = payload(st.size, st.cls, salt++); w->write(p.data(), p.size()); expect.back() += p; }
+            else if (st.kind == 3 && sink == 0) { // rotation onto the name that is open right now: the old stream is finished and published, a new one replaces it under the same name
+                std::string n = names.back(); names.push_back(n); w->rotate_output(boost::any(n)); expect.emplace_back();
+                std::string z = slurp(n + ext), plain, why; bool ok = comp == 1 ? gunzip1(z, plain, why) : unxz1(z, plain, why);
+                if (!ok) same_name_problem = "after rotating onto the open name the file under it is not one complete stream: " + why; else if (plain != expect[expect.size() - 2]) same_name_problem = "after rotating onto the open name the file under it does not hold the data written before the rotation"; }
             else { std::string n = newname(); if (sink == 0) w->rotate_output(boost::any(n)); else w->rotate_output(boost::any(opensink(n))); expect.emplace_back(); }
             R.count("transitions");
         }
         w.reset(); g_wcap = 0; R.count("short_writes", g_short_writes - sw0);
     }
     R.count("gz_partial_input_passes", g_gz_partial - c0[0]); R.count("gz_finish_multipass", g_gz_finish_more - c0[1]); R.count("xz_partial_input_passes", g_xz_partial - c0[2]); R.count("xz_finish_multipass", g_xz_finish_more - c0[3]); R.count("gz_output_only_passes", g_gz_nothing - c0[4]);
+    if (!same_name_problem.empty()) out.push_back({std::string("rotation-onto-open-name|") + (comp == 1 ? "gzip" : "xz"), same_name_problem});
     for (size_t i = 0; i < names.size(); i++) {
+        bool replaced = false; for (size_t j = i + 1; j < names.size(); j++) if (names[j] == names[i]) replaced = true; if (replaced) continue;   // a later output took this name
         std::string path = names[i] + (sink == 0 ? ext : ""); struct stat st; std::string tag = std::string(comp == 1 ? "gzip" : "xz") + (sink ? "|fd" : "|name");
         if (stat(path.c_str(), &st) != 0) { out.push_back({"missing-output|" + tag, "output " + std::to_string(i) + " not found under " + path.substr(path.rfind('/') + 1)}); continue; }
         if (sink == 0 && stat((names[i] + ext + ".part").c_str(), &st) == 0) out.push_back({"part-left|" + tag, "output " + std::to_string(i) + ": .part file left behind"});
@@ -160,7 +167,7 @@ int main(int argc, char** argv) {
     auto done = [&](int rc) { a.finish(total); rm_rf(g_dir); return rc; };
     auto parse = [](const std::string& s, int& comp, int& sink, std::vector<Step>& st) {
         if (sscanf(s.c_str(), "comp=%d;sink=%d;", &comp, &sink) != 2) return false; size_t p = s.find("steps="); if (p == std::string::npos) return false; p += 6;
-        while (p < s.size()) { if (s[p] == 'R') { st.push_back({1, 0, 0}); p += 2; } else if (s[p] == 'S') { st.push_back({2, (size_t)strtoull(s.c_str() + p + 1, nullptr, 10), 0}); p = s.find(',', p) + 1; } else if (s[p] == 'W') { size_t sz; int c; if (sscanf(s.c_str() + p, "W%zuc%d,", &sz, &c) != 2) return false; st.push_back({0, sz, c}); p = s.find(',', p) + 1; } else break; } return true; };
+        while (p < s.size()) { if (s[p] == 'R') { st.push_back({1, 0, 0}); p += 2; } else if (s[p] == 'Q') { st.push_back({3, 0, 0}); p += 2; } else if (s[p] == 'S') { st.push_back({2, (size_t)strtoull(s.c_str() + p + 1, nullptr, 10), 0}); p = s.find(',', p) + 1; } else if (s[p] == 'W') { size_t sz; int c; if (sscanf(s.c_str() + p, "W%zuc%d,", &sz, &c) != 2) return false; st.push_back({0, sz, c}); p = s.find(',', p) + 1; } else break; } return true; };
     auto emit_dir = a.kv.count("emit") ? a.kv["emit"] : std::string();
     if (!a.replay.empty() && slurp(a.replay).find("staticexit=") != std::string::npos) { std::string s = slurp(a.replay); s = s.substr(s.find("staticexit=")); int comp, sink; if (sscanf(s.c_str(), "staticexit=1;comp=%d;sink=%d", &comp, &sink) != 2) return done(2);
         Pool rp(1, 300); rp.run(1, [&](uint64_t, Result& R) { std::vector<CV> out; run_static_exit(comp, sink, R, out); for (auto& v : out) R.violation("comp|" + v.key, v.what, s); },
@@ -172,7 +179,7 @@ int main(int argc, char** argv) {
         Pool rp(1, 600); rp.run(1, [&](uint64_t, Result& R) { std::vector<CV> out; run_seq(comp, sink, st, R, out); for (auto& v : out) R.violation("comp|" + v.key, v.what, s); },
                                [&](uint64_t, const std::string& d, Result& R) { R.violation(std::string("comp|crash|") + (comp == 1 ? "gzip" : "xz") + "|" + crash_key(d), d.substr(0, 800), s); }, total); return done(total.viol.empty() ? 0 : 1); }
     std::vector<size_t> sizes = {0, 1, 2, 2047, 2048, 2049, 65536, 1 << 20};
-    std::vector<Step> alpha; for (size_t s : sizes) for (int c = 0; c < 4; c++) { if (s <= 2 && c > 1) continue; if (s == (1 << 20) && (c == 1 || c == 3) && !T) continue; alpha.push_back({0, s, c}); } alpha.push_back({1, 0, 0});
+    std::vector<Step> alpha; for (size_t s : sizes) for (int c = 0; c < 4; c++) { if (s <= 2 && c > 1) continue; if (s == (1 << 20) && (c == 1 || c == 3) && !T) continue; alpha.push_back({0, s, c}); } alpha.push_back({1, 0, 0}); alpha.push_back({3, 0, 0});   // rotate to a new name / onto the open name
     int D = T ? 3 : 2;
     struct Task { int comp, sink; std::vector<Step> st; bool expand; int exp_n = 0, exp_kind = 0; bool static_exit = false; };
     std::vector<Task> tasks;
